@@ -166,21 +166,60 @@ def run(ctx, rep):
     pend = prog.const_value("flumine.markets.blotter", "PENDING_STATUS")
     rep.check(sorted(pend) == ["OrderStatus.EXPIRED", "OrderStatus.PENDING", "OrderStatus.VIOLATION"], "R8",
               "exposure leaves out exactly PENDING / VIOLATION / EXPIRED orders", None, None, str(pend))
-    skip = [n for n in cfg.live_nodes() if n.kind == "cond" and utext(n.exprs[0]) == "order.status in PENDING_STATUS"]
-    good = len(skip) == 1 and all(cfg.nodes[m].kind == "stmt" and isinstance(cfg.nodes[m].ast, ast.Continue)
-                                  for l, m in skip[0].succ if l == "T")
-    rep.check(good, "R8", key(ge, None, "orders awaiting acknowledgement or refused are skipped, nothing else"), ge)
+    # which orders contribute: decided over the finite domain
+    #   stored/prospective x status pending-or-refused / live / complete x excluded or not
+    from rules.c05 import reach_under
+    loops = [lp for lp in walk_nodes(ge.node.body, ast.For) if utext(lp.target) == "order"]
+    if len(loops) != 1:
+        raise AnalysisError("get_exposures: loop over the orders not found")
+    head = [n for n in cfg.live_nodes() if n.kind == "for" and n.ast is loops[0]][0]
+    start = [m for l, m in head.succ if l == "iter"][0]
     matched = [n for n, c in node_calls(cfg, "append") if recv_text(c) in ("mb", "ml")]
     unmatched = [n for n, c in node_calls(cfg, "append") if recv_text(c) in ("ub", "ul")]
     rep.floor("R8", "matched / unmatched contributions", len(matched) + len(unmatched), 4)
-    for n in matched:
-        gs = [utext(g.exprs[0]) for g, pol in cfg.guards(n.id)]
-        rep.check(not any("complete" in t for t in gs), "R8", key(ge, n.exprs[0], "matched amounts count for completed orders too"),
-                  ge, n.exprs[0], str(gs))
-    for n in unmatched:
-        gs = [(utext(g.exprs[0]), pol) for g, pol in cfg.guards(n.id)]
-        rep.check(("order.complete", False) in gs, "R8", key(ge, n.exprs[0], "unmatched remainder counts only while the order is live"),
-                  ge, n.exprs[0], str(gs))
+    bad = []
+    n_cases = 0
+    for prospective in (False, True):
+        for state in ("pending_or_refused", "live", "complete"):
+            for excluded in (False, True):
+                def ev(e, prospective=prospective, state=state, excluded=excluded):
+                    t = utext(e)
+                    if t == "order == exclusion":
+                        return excluded
+                    if t == "order != exclusion":
+                        return not excluded
+                    if t == "order.status in PENDING_STATUS":
+                        return state == "pending_or_refused"
+                    if t == "order.complete":
+                        return state in ("complete",) or (state == "pending_or_refused")
+                    if t == "order is not new_order":
+                        return not prospective
+                    if t == "order is new_order":
+                        return prospective
+                    if t in ("_size_matched", "order_type_price", "_size_remaining", "order_type_price and _size_remaining"):
+                        return True
+                    if t == "order.order_type.ORDER_TYPE == ORDER_TYPE_LIMIT":
+                        return True
+                    return None
+                n_cases += 1
+                m_hit = bool(reach_under(cfg, start, {n.id for n in matched}, ev, stop={head.id}))
+                u_hit = bool(reach_under(cfg, start, {n.id for n in unmatched}, ev, stop={head.id}))
+                if excluded and not prospective:
+                    want_m = want_u = False
+                elif excluded and prospective:
+                    want_m = want_u = None  # exclusion == new_order: reported by R7
+                elif prospective:
+                    want_m = want_u = True
+                else:
+                    want_m = state != "pending_or_refused"
+                    want_u = state == "live"
+                if want_m is not None and (m_hit, u_hit) != (want_m, want_u):
+                    bad.append("%s order, %s%s: matched counted=%s unmatched counted=%s, expected %s/%s" % (
+                        "prospective" if prospective else "stored", state, ", excluded" if excluded else "", m_hit, u_hit,
+                        want_m, want_u))
+    rep.note("exposure_membership_cases", n_cases)
+    rep.check(not bad, "R8", key(ge, None, "stored orders: pending/refused skipped, matched always, unmatched while live; "
+                                           "the prospective order is counted whatever its own status"), ge, None, "; ".join(bad))
     sides = {}
     for n, c in node_calls(cfg, "append"):
         r = recv_text(c)
@@ -437,8 +476,11 @@ MUTANTS = [
          old="                if _size_matched:\n", new="                if _size_matched and not order.complete:\n", expect=["R8"],
          why="matched bets of completed orders forgotten"),
     dict(id="c01-unmatched-when-complete", file="flumine/markets/blotter.py", func="Blotter.get_exposures",
-         old="                if not order.complete:\n", new="                if True:\n", expect=["R8"],
+         old="                if not order.complete or order is new_order:\n", new="                if True:\n", expect=["R8"],
          why="cancelled remainder still counted / stale"),
+    dict(id="c01-prospective-skipped-when-refused-before", file="flumine/markets/blotter.py", func="Blotter.get_exposures",
+         old="            if order.status in PENDING_STATUS and order is not new_order:", new="            if order.status in PENDING_STATUS:",
+         expect=["R8"], why="a refused order placed again bypasses the market limit (F12)"),
     dict(id="c01-cancelling-credit", file="flumine/markets/blotter.py", func="Blotter.get_exposures",
          old="                    _size_remaining = order.size_remaining  # cache\n",
          new="                    _size_remaining = order.size_remaining  # cache\n                    if order.status == OrderStatus.CANCELLING:\n                        _size_remaining = 0.0\n",
